@@ -623,7 +623,7 @@ func checkMain(args []string) {
 	base := []string{
 		"govc (SSA -> SMT translation, loop cutting, prelude axioms) and go/ssa's lowering of Go",
 		"z3 / cvc5 'unsat' answers",
-		"integers are mathematical except at explicit conversions; machine overflow of int arithmetic is assumed absent",
+		"integers are mathematical except at explicit conversions and in + - * of the sized signed types (int64, int32, int16, int8), which wrap; overflow of int, uint and sized unsigned arithmetic is assumed absent",
 		"slices are value sequences: capacity and backing-array sharing are outside the terms (in-place sites listed under abstraction_sites); where a contract says separate(a.f, b.g) the non-sharing is an obligation decided from the executor's backing-array tracking",
 		"math/big behaves as mathematical integers / rationals; an in-place mutation of a big value the function did not allocate, or after a pointer to it was stored or handed out, is reported as a frame obligation (static ownership analysis on the SSA); other aliasing of big values is not modelled",
 		"package-level variables named in 'assume' lines keep their initial value",
